@@ -205,6 +205,51 @@ func scenarios() []*sched.Scenario {
 			vrt.Fail("group|counter-nonzero", "group counters %d/%d after everything finished", g.PendingChildrenCounter.Get(), sub.PendingChildrenCounter.Get())
 		}
 	}})
+	// (F2) an observer that has SEEN the pool's pending counter above zero and then waits for the group: the group
+	// must already know about the task (the counter's subscribers are told before the new value becomes readable)
+	out = append(out, &sched.Scenario{Name: "group/observer-sees-pending-then-waitchildren", QuickMaxBound: 2, Run: func() {
+		root := workerpool.NewGroup("root")
+		sub := root.CreateGroup("sub")
+		p := sub.CreatePool("p", workerpool.WithWorkerCount(1))
+		gate := make(chan struct{})
+		gateOpen := false
+		s := vrt.Spawn(func() { p.Submit(func() { vrt.Recv(gate) }) })
+		o := vrt.Spawn(func() {
+			saw := p.PendingTasksCounter.Get() > 0
+			vrt.Observe("observer-saw-pending", saw)
+			if saw {
+				root.WaitChildren()
+				if !gateOpen {
+					vrt.Fail("group|waitchildren-early", "the pool's pending counter was read as 1 (its only task is blocked), then WaitChildren of the root group returned although that task was still pending")
+				}
+			}
+		})
+		s.Join()
+		vrt.Settle()
+		gateOpen = true
+		vrt.Close(gate)
+		o.Join()
+		root.Shutdown()
+		p.ShutdownComplete.Wait()
+	}})
+	// (F3) a caller parked in Queue.WaitSizeIsAbove (threshold never reached) shares the queue's condition variable
+	// with the dispatcher: every Submit must still reach the dispatcher
+	out = append(out, &sched.Scenario{Name: "queue-waiter-does-not-steal-submits/w1", QuickMaxBound: 2, Run: func() {
+		p := workerpool.New("p", workerpool.WithWorkerCount(1))
+		b := newBook(p, false)
+		p.Start()
+		vrt.Spawn(func() { p.Queue.WaitSizeIsAbove(5) }) // stays parked; not joined
+		vrt.Settle()
+		p.Submit(b.task(1, nil))
+		p.PendingTasksCounter.WaitIsZero()
+		p.Submit(b.task(2, nil))
+		p.PendingTasksCounter.WaitIsZero()
+		p.Submit(b.task(3, nil))
+		p.PendingTasksCounter.WaitIsZero()
+		if b.runs[1]+b.runs[2]+b.runs[3] != 3 {
+			vrt.Fail("task|accepted-not-run", "the pending counter is zero but only %d of 3 submitted tasks ran", b.runs[1]+b.runs[2]+b.runs[3])
+		}
+	}})
 	// (G) nested groups: every level must see the pools below it (root -> mid -> leaf -> pool)
 	out = append(out, &sched.Scenario{Name: "group/nested-waitchildren", QuickMaxBound: 2, Run: func() {
 		root := workerpool.NewGroup("root")
